@@ -317,3 +317,22 @@ V("c17-slices-from-first-env", "C17", "fire", UT, "                fold_sample =
 V("c17-silent-isclose", "C17", "silent", UT, "    if abs(np.sum(ratios) - 1) > 1e-9:", "    if not np.isclose(np.sum(ratios), 1, rtol=0, atol=1e-9):", what="isclose with explicit tolerance")
 V("c17-silent-eq-last", "C17", "silent", UT, "            if i < n_folds - 1:\n", "            if i != n_folds - 1:\n", what="equivalent last-fold test")
 V("c17-silent-plus1", "C17", "silent", UT, "            if i < n_folds - 1:\n", "            if i + 1 < len(ratios):\n", what="i + 1 < n")
+
+# ------------------------------------------------------------------------------- C18
+V("c18-remove-raw", "C18", "fire", UT, "    A = A.astype(bool).astype(int)\n    rng = np.random.default_rng(random_state)\n    edges = directed_edges(A)", "    rng = np.random.default_rng(random_state)\n    edges = directed_edges(A)", rule=None, what="weights kept: result not the 0/1 subgraph", accept_inconclusive=True)
+V("c18-remove-guard-le", "C18", "fire", UT, "    if len(edges) < no_edges:", "    if len(edges) <= no_edges:", rule="GUARD.remove", what="removing every edge rejected")
+V("c18-remove-with-replacement", "C18", "fire", UT, "rng.choice(edges, no_edges, replace=False)", "rng.choice(edges, no_edges, replace=True)", rule="DRAW.remove", what="same edge drawn twice: fewer removed")
+V("c18-remove-transposed", "C18", "fire", UT, "        pruned[fro, to] = 0\n", "        pruned[to, fro] = 0\n", rule="RESULT.remove", what="clears the wrong entry")
+V("c18-remove-one-less", "C18", "fire", UT, "rng.choice(edges, no_edges, replace=False)", "rng.choice(edges, no_edges - 1, replace=False)", rule="DRAW.remove", what="one edge short")
+V("c18-add-guard-ge", "C18", "fire", UT, "    if no_edges > can_add:", "    if no_edges >= can_add:", rule="GUARD.add", what="completing the DAG rejected")
+V("c18-add-guard-pp", "C18", "fire", UT, "can_add = int(p * (p - 1) / 2 - A.sum())", "can_add = int(p * (p - 1) - A.sum())", rule="GUARD.add", what="infeasible requests accepted")
+V("c18-add-no-dag-test", "C18", "fire", UT, "        if is_dag(next_supergraph):\n            supergraph = next_supergraph\n", "        supergraph = next_supergraph\n", rule="ACCEPT", what="cycles may be created")
+V("c18-add-dag-test-old", "C18", "fire", UT, "        if is_dag(next_supergraph):", "        if is_dag(supergraph):", rule="ACCEPT", what="tests the wrong graph")
+V("c18-add-adjacent-cands", "C18", "fire", UT, "fro, to = np.where((A + A.T + np.eye(len(A))) == 0)", "fro, to = np.where((A + np.eye(len(A))) == 0)", rule="CAND.pairs", what="reverse of existing edges are candidates: two-cycles")
+V("c18-add-selfloops", "C18", "fire", UT, "fro, to = np.where((A + A.T + np.eye(len(A))) == 0)", "fro, to = np.where((A + A.T) == 0)", rule="CAND.pairs", what="self-loops are candidates")
+V("c18-add-upper-only", "C18", "fire", UT, "fro, to = np.where((A + A.T + np.eye(len(A))) == 0)", "fro, to = np.where(np.triu((A + A.T + np.eye(len(A))) == 0))", rule="CAND.pairs", what="only one orientation tried", accept_inconclusive=True)
+V("c18-add-skip", "C18", "fire", UT, "        i += 1\n        if is_dag(next_supergraph):", "        i += 2\n        if is_dag(next_supergraph):", rule="LOOP.advance", what="every other candidate skipped")
+V("c18-add-early-exit", "C18", "fire", UT, "< no_edges and i < len(edges):", "< no_edges and i < len(edges) - 1:", rule="LOOP.exit", what="last candidate never tried")
+V("c18-add-unseeded-shuffle", "C18", "fire", UT, "    rng.shuffle(edges)\n    # Check inputs", "    np.random.shuffle(edges)\n    # Check inputs", rule=None, what="shuffle from the global stream", accept_inconclusive=True)
+V("c18-silent-bin", "C18", "silent", UT, "    A = A.astype(bool).astype(int)\n    # Edges between non-adjacent nodes", "    A = (A != 0).astype(int)\n    # Edges between non-adjacent nodes", what="equivalent binarisation")
+V("c18-silent-guard", "C18", "silent", UT, "    if no_edges > can_add:", "    if can_add < no_edges:", what="flipped guard")
